@@ -20,7 +20,7 @@ EOS = "▪"
 FEATURES = [
     "nullary", "nullable_cycle", "unary_chain", "unary_cycle", "left_rec",
     "right_rec", "centre_rec", "start_on_rhs", "duplicates", "repeated_symbol",
-    "unreachable", "unproductive", "long_body",
+    "unreachable", "unproductive", "long_body", "left_corner_cycle", "big_unary_cycle",
 ]
 
 
@@ -66,6 +66,22 @@ def shape(rng, tier="quick", allow_cyclic=True, max_rules=None):
     if "unary_cycle" in feats:
         rules += [(X, (Y,)), (Y, (X,))] if X != Y else [(X, (X,))]
         rules += [(X, (a,))]
+    if "left_corner_cycle" in feats and nN >= 2:
+        # left-corner cycle through two or three nonterminals, with ways out
+        cyc = rng.sample(N, min(nN, rng.choice([2, 2, 3])))
+        for i, P in enumerate(cyc):
+            Q = cyc[(i + 1) % len(cyc)]
+            rules += [(P, (Q,) + tuple(sym() for _ in range(rng.choice([0, 1, 1, 2]))))]
+        rules += [(rng.choice(cyc), (a,)), (rng.choice(cyc), (b,) if rng.random() < 0.5 else ())]
+    if "big_unary_cycle" in feats and nN >= 3 and allow_cyclic:
+        # unary cycle through three or more nonterminals, entered at two nodes
+        cyc = rng.sample(N, rng.choice([3, 3, min(4, nN)]))
+        for i, P in enumerate(cyc):
+            rules += [(P, (cyc[(i + 1) % len(cyc)],))]
+        out = [Xo for Xo in N if Xo not in cyc] or [cyc[0]]
+        W = rng.choice(out)
+        e1, e2 = rng.sample(cyc, 2)
+        rules += [(W, (e1,)), (W, (e2,)), (rng.choice(cyc), (a,)), (rng.choice(cyc), (b,))]
     if "left_rec" in feats:
         rules += [(X, (X, a))]
     if "right_rec" in feats:
